@@ -126,23 +126,37 @@ def user_programs(tier):
 
 
 def visibility_programs(tier):
-    """viewer at origin looking +Y; a wall at y=10; targets either in the open or fully behind the wall."""
+    """viewer at origin looking +Y; a wall at y=10; targets either in the open or fully behind the wall.
+
+    Variants: default visibleDistance (50: the whole wall is in range); visibleDistance 20 (the
+    wall, half-diagonal 14.1 at distance 10, sticks out of the view sphere); visibleDistance 20
+    with a long wall whose centre is out of range (distance 20.6) while its near part is not.
+    In every variant the part of the wall crossing the sight lines is well within range and
+    all targets are within range, so the verdicts are the same."""
     progs = []
     open_pos, hidden_pos = "(10, -10, 0)", "(0, 15, 0)"
-    wall = "wall = new Object at (0, 10, 0), with width 20, with length 0.5, with height 20\n"
-    head = "viewer = new OrientedPoint at (0, 0, 0)\nego = new Object at (0, -30, 0), with requireVisible False\n" + wall
-    for kx, ky, order in itertools.product(("visible", "not visible"), ("visible", "not visible"), ("xy", "yx")):
-        lx = f"x = new Object at Uniform({open_pos}, (-10, -10, 0)), {kx} from viewer, with requireVisible False\n"
-        ly = f"y = new Object at Uniform({hidden_pos}, (12, -12, 0)), {ky} from viewer, with requireVisible False\n"
-        text = head + (lx + ly if order == "xy" else ly + lx)
-        progs.append((f"vis:{kx[:3]}:{ky[:3]}:{order}", text, {"vis": {"x": kx, "y": ky}, "viewer": (0, 0, 0)}))
-    # requireVisible from the ego
-    text = (
-        "ego = new Object at (0, 0, 0), with width 0.5, with length 0.5, with height 0.5\n"
-        "wall = new Object at (0, 10, 0), with width 20, with length 0.5, with height 20, with requireVisible False\n"
-        "t = new Object at Uniform((0, 15, 0), (8, 4, 0), (0, -8, 0)), with requireVisible Uniform(True, False)\n"
-    )
-    progs.append(("vis:requireVisible", text, {"vis": {"t": "requireVisible"}, "viewer": (0, 0, 0)}))
+    variants = [
+        ("", "", "(0, 10, 0)", 20),
+        (":vd20", ", with visibleDistance 20", "(0, 10, 0)", 20),
+        (":vd20-offcentre", ", with visibleDistance 20", "(18, 10, 0)", 56),
+    ]
+    for vname, vd, wpos, wwidth in variants:
+        wall = f"wall = new Object at {wpos}, with width {wwidth}, with length 0.5, with height 20\n"
+        head = f"viewer = new OrientedPoint at (0, 0, 0){vd}\nego = new Object at (0, -30, 0), with requireVisible False\n" + wall
+        for kx, ky, order in itertools.product(("visible", "not visible"), ("visible", "not visible"), ("xy", "yx")):
+            if vname and tier == "quick" and order == "yx" and kx != ky:
+                continue
+            lx = f"x = new Object at Uniform({open_pos}, (-10, -10, 0)), {kx} from viewer, with requireVisible False\n"
+            ly = f"y = new Object at Uniform({hidden_pos}, (12, -12, 0)), {ky} from viewer, with requireVisible False\n"
+            text = head + (lx + ly if order == "xy" else ly + lx)
+            progs.append((f"vis:{kx[:3]}:{ky[:3]}:{order}{vname}", text, {"vis": {"x": kx, "y": ky}, "viewer": (0, 0, 0), "wall_width": wwidth}))
+        # requireVisible from the ego
+        text = (
+            f"ego = new Object at (0, 0, 0), with width 0.5, with length 0.5, with height 0.5{vd}\n"
+            f"wall = new Object at {wpos}, with width {wwidth}, with length 0.5, with height 20, with requireVisible False\n"
+            "t = new Object at Uniform((0, 15, 0), (8, 4, 0), (0, -8, 0)), with requireVisible Uniform(True, False)\n"
+        )
+        progs.append((f"vis:requireVisible{vname}", text, {"vis": {"t": "requireVisible"}, "viewer": (0, 0, 0), "wall_width": wwidth}))
     return progs
 
 
@@ -217,7 +231,7 @@ def verify_scene(scene, meta, active):
         byname = {}
         wall = None
         for o in objs:
-            if abs(o.width - 20) < 1e-9:
+            if abs(o.width - meta.get("wall_width", 20)) < 1e-9:
                 wall = o
         wv = np.asarray(wall.occupiedSpace.mesh.vertices, float)
         wf = np.asarray(wall.occupiedSpace.mesh.faces, np.int64)
